@@ -16,6 +16,12 @@ for f in sorted(glob.glob('selftest/mutants/canary_*.patch')):
 for d in sorted(glob.glob('seeded/*/')):
     m = json.load(open(d+'meta.json'))
     cases.append((m['seed'], os.path.abspath(d+'patch.diff'), m['property']))
+# evidence and replay files of mutated trees go to a scratch directory, never to /verif/evidence
+import tempfile, shutil
+scratch = tempfile.mkdtemp(prefix='govc_selftest_')
+os.symlink('/verif/contracts', scratch+'/contracts')
+shutil.copy('known_findings.json', scratch+'/known_findings.json')
+env = dict(os.environ, VERIF_DIR=scratch)
 results = []
 for name, patch, prop in cases:
     if flt not in name: continue
@@ -23,7 +29,7 @@ for name, patch, prop in cases:
     if ap.returncode != 0:
         results.append({'case':name,'property':prop,'status':'patch-does-not-apply'}); print(name,'SKIP (patch does not apply)'); continue
     try:
-        out = subprocess.run(['/verif/bin/govc','check','--property',prop],capture_output=True,text=True).stdout
+        out = subprocess.run(['/verif/bin/govc','check','--property',prop],capture_output=True,text=True,env=env).stdout
     finally:
         subprocess.run(['git','-C','/repo','checkout','--','.'])
     viol = [l for l in out.splitlines() if l.startswith('VIOLATION')]
@@ -32,6 +38,7 @@ for name, patch, prop in cases:
     results.append({'case':name,'property':prop,'status':st,'violations':len(viol),'replay_confirmed':len(confirmed),
                     'first': viol[0][:300] if viol else ''})
     print(name, prop, st, 'violations=%d confirmed-replays=%d'%(len(viol),len(confirmed)))
+shutil.rmtree(scratch, ignore_errors=True)
 json.dump(results, open('selftest/results.json','w'), indent=1)
 missed=[r for r in results if r['status']=='MISSED']
 print('cases=%d detected=%d missed=%d'%(len(results), sum(r['status']=='detected' for r in results), len(missed)))
